@@ -310,8 +310,18 @@ def prepare(case):
     try:
         mv = set(_model_variants(case))
         kept_recs = {}
-        for vi, v in enumerate(case["variants"]):
+        vi = -1
+        while vi + 1 < len(case["variants"]):
+            vi += 1
+            v = case["variants"][vi]
             rec = K.run_reactor(_vcase(case, v, "all"))
+            if vi == 0 and case.get("trim") and len(rec.its_list) * rec.host.number_of_nodes() > case["trim"]:
+                # hundreds of results on a large substrate: every writing x strategy re-creates, copies, serialises and standardises
+                # all of them (18 CPU-s for one corpus case).  Such a case keeps the base, one substrate rewriting and one numbering.
+                keep = [0] + [next((i for i, w in enumerate(case["variants"]) if i and w["v"].startswith(pref)), None) for pref in ("sub:", "tpl:")]
+                case["variants"] = [case["variants"][i] for i in sorted(set(k for k in keep if k is not None))]
+                case["trimmed"] = True
+                mv = set(_model_variants(case))
             if not K.in_domain_tpl(rec.tpl):
                 case["pre"] = {"outside": "template outside the model domain (wildcard / missing typesGH)"}
                 return case
@@ -597,8 +607,7 @@ def _sequence_failures(case, obs, fail):
     from ..gen import c05_hist as H
     extra = _seq_numberings(case)[1 + sum(1 for v in case["variants"][1:] if v["v"].startswith("tpl")):] if case.get("seq") else []
     steps = H.steps_of(case, extra)
-    fwd = H.fresh(H.spec_of(case, steps + steps[:1]))
-    rev = H.fresh(H.spec_of(case, steps[::-1] + steps[-1:]))
+    fwd, rev = H.fresh_many([H.spec_of(case, steps + steps[:1]), H.spec_of(case, steps[::-1] + steps[-1:])])
     for label, seq, answers in (("forward", steps + steps[:1], fwd), ("reverse", steps[::-1] + steps[-1:], rev)):
         for k, (st, ans) in enumerate(zip(seq, answers)):
             here = obs[(0, st["key"])]
@@ -866,8 +875,19 @@ def gen_cases(tier, rng):
             q["name"] = p["name"] + ":partial"
             pairs.append(q)
     cases = [_mk_case(p, rng, k_sub, k_tpl, cap) for p in pairs]
+    for c in cases:
+        c["trim"] = 2500 if tier == "quick" else 10000
     cases = prepare_all(cases)
-    return cases + threshold_cases(cases, rng, 3 if tier == "quick" else 5)
+    cases = cases + threshold_cases(cases, rng, 3 if tier == "quick" else 5)
+    # longest first: the pool hands out the cases in order, so an expensive case at the end of the list would run alone while
+    # every other worker is idle (on a loaded machine that one case decided the wall time)
+    cases.sort(key=lambda c: -_impl_cost(c))
+    return cases
+
+
+def _impl_cost(c):
+    cost = (c.get("pre") or {}).get("cost") or {}
+    return (cost.get("glued", 0) + 2) * (cost.get("host", 0) + 10) * len(c.get("variants", [])) + (4000 if _seq_sampled(c) else 0)
 
 
 # the embedding cap (SynReactor(embed_threshold=k) -> find_subgraph_mappings(threshold=k)): a documented guard that EMPTIES a search
